@@ -78,6 +78,25 @@ def gen_cases(ctx, ngroups):
             P = clean_bytes(r, off) + marker + clean_bytes(r, r.randrange(0, 20)) + decoy_header(r) + clean_bytes(r, r.randrange(13, 60))
             out.append(Case(A.rdr_op(r.choice(A.KINDS), pol, toks, P + d), tags={"decoy", "marker=" + marker[:3].decode()},
                             note=("same", gid, len(P))))
+        # skip lengths: stored members whose data (or whose rest after a partial read) is passed over in blocks – exact multiples
+        # of the block sizes a read-based skip could use, one more, one less – by every kind of source, with and without reading
+        from vlib import streams as S
+        sizes = [r.choice([4096, 8192, 12288, 16384, 65536, 512, 1024, 2048, 4095, 4097, 8191, 1, 0, 300]) for _ in range(r.choice([2, 3, 4]))]
+        sd = b"".join(A._member(r, b"", b"m%d" % j, data=S.rand_bytes(r, sz), level=r.choice([0, 1, 2])) for j, sz in enumerate(sizes))
+        sd += A._member(r, b"", b"last", data=b"the end", level=r.choice([0, 1, 2])) + b"\0"
+        stoks = []
+        for sz in sizes:
+            stoks.append("n")
+            k = r.random()
+            if k < 0.3 and sz > 1:
+                stoks.append("r%d" % r.choice([sz - 4096, sz - 8192, 1, sz % 4096 or 7]) if sz > 8192 else "r%d" % r.choice([1, sz % 4096 or 7]))
+            elif k < 0.4:
+                stoks.append("c")
+        stoks = [t for t in stoks if not t.startswith("r-")] + ["n", "c", "n"]
+        gid += 1
+        for kind in A.KINDS:
+            out.append(Case(A.rdr_op(kind, pol, stoks, sd), tags={"skip-sizes", "kind=" + kind}, note=("ref" if kind == "seek" else "same", gid, 0)))
+        out.append(Case("cli2 t:last %s" % sd.hex(), tags={"cli-stdin", "skip-sizes"}, note=("cli", gid, 0)))
         out.append(Case("cli2 t %s" % d.hex(), tags={"cli-stdin"}, note=("cli", gid, 0)))
         if g % 2 == 0:
             # the same FILE object first on a regular file, then reopened on a FIFO: both passes must present the same members
@@ -152,8 +171,9 @@ def run_cli2(env, ctx, op):
     try:
         ap = os.path.join(d, "a.lzh")
         open(ap, "wb").write(data)
-        r1 = core.run_cli(env["lha"], [mode, ap], d, stdin_data=b"")
-        r2 = core.run_cli(env["lha"], [mode, "-"], d, stdin_data=data)
+        mode, *more = mode.split(":")          # "t:last" = `lha t <archive> last`: every other member is passed over
+        r1 = core.run_cli(env["lha"], [mode, ap] + more, d, stdin_data=b"")
+        r2 = core.run_cli(env["lha"], [mode, "-"] + more, d, stdin_data=data)
         if r1[3] != "ok" or r2[3] != "ok":
             return "CRASH " + r1[3] + " / " + r2[3]
         if (r1[0], r1[1]) != (r2[0], r2[1]):
